@@ -815,12 +815,14 @@ Proof.
 Qed.
 
 (* ------------------------------------------------------------------ *)
-(* witnesses in the exact-IEEE instance (finding strip-zero-slice)        *)
+(* witnesses in the exact-IEEE instance (finding strip-zero-slice).  The `pre_fix_` ones are
+   HISTORICAL: they are about the model instance with pt = false, i.e. the definitions of the code
+   before fix commit 150ba09; zero_slice_with_fix is about pt = true, the current code. *)
 Definition zs_prog : list (instr xq) := [pair_step 2 0 1 [[(0,0)];[(0,1)];[(1,0)];[(1,1)]]%N].
 Definition zs_slices : list (list (list xq)) :=
   [ [[q 1 1; q 2 1]; [q 1 1; q 2 1]];  [[q 0 1; q 0 1]; [q 3 1; q 4 1]] ].
 
-Lemma zero_slice_refuted : exists prog slices r s,
+Lemma pre_fix_zero_slice_refuted : exists prog slices r s,
   X_wf prog [0;1]%nat = true /\
   X_sum false false false prog slices = Some (Plain (MArr r)) /\
   forallb x_nonzero_finite r = true /\
@@ -832,7 +834,7 @@ Proof.
   vm_compute. repeat split; reflexivity.
 Qed.
 
-Lemma zero_slice_check_zero : 
+Lemma pre_fix_zero_slice_check_zero : 
   x_value_ok (Plain (MArr [XF 1; XF 2; XF 2; XF 4]))
              (match X_sum false true true zs_prog zs_slices with Some s => s | None => Plain (MScal XNaN) end) = true /\
   X_sum false true true zs_prog [nth 1 zs_slices []; nth 1 zs_slices []; nth 0 zs_slices []] =
@@ -852,3 +854,508 @@ Lemma zero_slice_with_fix :
     Some ([(0%nat, MArr [XF (1#4); XF (1#2); XF (1#2); XF 1]); (1%nat, MArr [XF 0; XF 0; XF 0; XF 0])], Some (XF 4)) /\
   X_stack true true true false zs_prog [0;1]%nat zs_slices = None.
 Proof. vm_compute. repeat split; reflexivity. Qed.
+
+(* ================================================================== *)
+(* The fixed semantics (instance 3): no hypothesis about zero factors  *)
+Definition zero (x : list R) : Prop := Forall (fun v => v = 0) x.
+
+Lemma zero_scale0 : forall x, zero x -> x = R_scale 0 x.
+Proof.
+  intros x H. unfold R_scale, scale. induction H as [|v x Hv H IH]; cbn [map]; [reflexivity|].
+  rewrite <- IH. subst v. f_equal. ring.
+Qed.
+
+Lemma scale0_zero : forall x, zero (R_scale 0 x).
+Proof.
+  intro x. unfold R_scale, scale, zero. apply Forall_forall. intros v Hv.
+  apply in_map_iff in Hv. destruct Hv as [w [E _]]. subst v. ring.
+Qed.
+
+Lemma zero_scale : forall a x, zero x -> zero (R_scale a x).
+Proof.
+  intros a x H. unfold R_scale, scale, zero in *. rewrite Forall_forall in *. intros v Hv.
+  apply in_map_iff in Hv. destruct Hv as [w [E Hw]]. subst v. rewrite (H w Hw). ring.
+Qed.
+
+Lemma scale_zero_any : forall a b x, zero x -> R_scale a x = R_scale b x.
+Proof.
+  intros a b x H. unfold R_scale, scale. apply map_ext_in. intros v Hv.
+  unfold zero in H. rewrite Forall_forall in H. rewrite (H v Hv). ring.
+Qed.
+
+Lemma zero_maxabs : forall x, zero x -> R_maxabs x = 0.
+Proof.
+  intros x H. induction H as [|v x Hv H IH].
+  - reflexivity.
+  - rewrite R_maxabs_cons, IH. subst v. rewrite Rabs_R0. apply Rmax_left. lra.
+Qed.
+
+Lemma maxabs_zero : forall x, R_maxabs x = 0 -> zero x.
+Proof.
+  intros x H. unfold zero. apply Forall_forall. intros v Hv.
+  pose proof (R_maxabs_In v x Hv) as L. rewrite H in L.
+  pose proof (Rabs_pos v). destruct (Req_dec v 0) as [E|E]; [exact E|].
+  pose proof (Rabs_pos_lt v E). lra.
+Qed.
+
+Lemma homog2_zero_l : forall b x y, homog2 b -> zero x -> zero (b x y).
+Proof.
+  intros b x y Hb Hx. rewrite (zero_scale0 x Hx). rewrite <- (R_scale_1 y) at 1.
+  rewrite Hb. replace (0 * 1) with 0 by ring. apply scale0_zero.
+Qed.
+
+Lemma homog2_zero_r : forall b x y, homog2 b -> zero y -> zero (b x y).
+Proof.
+  intros b x y Hb Hy. rewrite (zero_scale0 y Hy). rewrite <- (R_scale_1 x) at 1.
+  rewrite Hb. replace (1 * 0) with 0 by ring. apply scale0_zero.
+Qed.
+
+Lemma homog1_zero : forall u x, homog1 u -> zero x -> zero (u x).
+Proof.
+  intros u x Hu Hx. rewrite (zero_scale0 x Hx), Hu. apply scale0_zero.
+Qed.
+
+Lemma rguard_fix_pos : forall f, 0 <= f -> 0 < rguard_fix f.
+Proof.
+  intros f H. unfold rguard_fix, ris0. destruct (Req_EM_T f 0); lra.
+Qed.
+
+Lemma rguard_fix_0 : rguard_fix 0 = 1.
+Proof. unfold rguard_fix, ris0. destruct (Req_EM_T 0 0); lra. Qed.
+
+(* register file facts *)
+Lemma tget_tset_same : forall k v (d : temps_t R), tget R k (tset R k v d) = Some v.
+Proof.
+  intros k v d. induction d as [|[k' w] d IH]; cbn [tset tget].
+  - rewrite Nat.eqb_refl. reflexivity.
+  - destruct (Nat.eqb k' k) eqn:E; cbn [tget]; rewrite E; [reflexivity | exact IH].
+Qed.
+
+Lemma tget_tset_other : forall k k' v (d : temps_t R), k <> k' ->
+  tget R k (tset R k' v d) = tget R k d.
+Proof.
+  intros k k' v d Hne. induction d as [|[k2 w] d IH]; cbn [tset tget].
+  - destruct (Nat.eqb k' k) eqn:E; [apply Nat.eqb_eq in E; congruence | reflexivity].
+  - destruct (Nat.eqb k2 k') eqn:E; cbn [tget].
+    + apply Nat.eqb_eq in E. subst k2.
+      destruct (Nat.eqb k' k) eqn:E2; [apply Nat.eqb_eq in E2; congruence | reflexivity].
+    + destruct (Nat.eqb k2 k); [reflexivity | exact IH].
+Qed.
+
+Lemma tpop_tget_same : forall l (d : temps_t R) x d', tpop R l d = Some (x, d') -> tget R l d = Some x.
+Proof.
+  intros l d. induction d as [|[k w] d IH]; cbn [tpop tget]; intros x d' H; [discriminate|].
+  destruct (Nat.eqb k l); [injection H as E _; subst; reflexivity|].
+  destruct (tpop R l d) as [[x0 r0]|]; [|discriminate].
+  injection H as E _. subst x0. eapply IH. reflexivity.
+Qed.
+
+Lemma tpop_tget_other : forall l k (d : temps_t R) x d', tpop R l d = Some (x, d') -> k <> l ->
+  tget R k d' = tget R k d.
+Proof.
+  intros l k d. induction d as [|[k2 w] d IH]; cbn [tpop tget]; intros x d' H Hne; [discriminate|].
+  destruct (Nat.eqb k2 l) eqn:E.
+  - apply Nat.eqb_eq in E. subst k2. injection H as _ E2. subst d'.
+    destruct (Nat.eqb l k) eqn:E3; [apply Nat.eqb_eq in E3; congruence | reflexivity].
+  - destruct (tpop R l d) as [[x0 r0]|] eqn:P; [|discriminate].
+    injection H as _ E2. subst d'. cbn [tget].
+    destruct (Nat.eqb k2 k); [reflexivity | eapply IH; [reflexivity | exact Hne]].
+Qed.
+
+Definition zreg (ts : temps_t R) (k : nat) : Prop := exists z, tget R k ts = Some z /\ zero z.
+
+(* unfolding equations of the fixed-semantics run *)
+Lemma T_run_nil : forall strip cz temps e last,
+  T_run strip cz [] temps e last =
+  match last with None => Raised | Some p => Done p (if strip then Some e else None) end.
+Proof. reflexivity. Qed.
+
+Lemma T_run_pre : forall strip cz p u rest temps e last,
+  T_run strip cz (IPre p u :: rest) temps e last =
+  match tget R p temps with
+  | None => Raised
+  | Some x => T_run strip cz rest (tset R p (u x) temps) e last
+  end.
+Proof. reflexivity. Qed.
+
+Lemma T_run_pair : forall strip cz p l r b rest temps e last,
+  T_run strip cz (IPair p l r b :: rest) temps e last =
+  match tpop R l temps with
+  | None => Raised
+  | Some (xl, t1) =>
+      match tpop R r t1 with
+      | None => Raised
+      | Some (xr, t2) =>
+          if strip then
+            if cz && ris0 (R_maxabs (b xl xr)) then ZeroExit
+            else T_run strip cz rest
+                       (tset R p (R_divs (b xl xr) (rguard_fix (R_maxabs (b xl xr)))) t2)
+                       (er_add e (er_log (R_maxabs (b xl xr))))
+                       (Some (R_divs (b xl xr) (rguard_fix (R_maxabs (b xl xr)))))
+          else T_run strip cz rest (tset R p (b xl xr) t2) e (Some (b xl xr))
+      end
+  end.
+Proof. reflexivity. Qed.
+
+(* the plain (strip = false) run does not look at the exponent carrier: instance 3 and the
+   R instance agree on it *)
+Lemma T_run_plain : forall g prog temps e e' last cz,
+  match T_run false cz prog temps e last, R_run g false cz prog temps e' last with
+  | Done m None, Done m' None => m = m'
+  | Raised, Raised => True
+  | _, _ => False
+  end.
+Proof.
+  intros g prog. induction prog as [|i prog IH]; intros temps e e' last cz.
+  - rewrite T_run_nil, R_run_nil. destruct last; [reflexivity | exact I].
+  - destruct i as [p u | p l r b].
+    + rewrite T_run_pre, R_run_pre. destruct (tget R p temps); [apply IH | exact I].
+    + rewrite T_run_pair, R_run_pair.
+      destruct (tpop R l temps) as [[xl t1]|]; [|exact I].
+      destruct (tpop R r t1) as [[xr t2]|]; [|exact I]. apply IH.
+Qed.
+
+(* exponent part of the invariant: finite exponent = log of the product of the live scales;
+   exponent -inf = some live register is exactly zero, positioned so that the returned
+   array (the last pairwise result) is zero at the end *)
+Definition exp_inv (sc : nat -> R) (ts : temps_t R) (pl : nat) (ls : option (list R)) (e : er) : Prop :=
+  match e with
+  | EFin r => pow10 r = prodk sc (keys ts)
+  | ENInf => (zreg ts pl /\ exists y, ls = Some y /\ zero y) \/ (exists k, k <> pl /\ zreg ts k)
+  end.
+
+Definition last_ok' (sc : nat -> R) (ks : list nat) (pl : nat) (lp ls : option (list R)) : Prop :=
+  match ls, lp with
+  | None, None => True
+  | Some y, Some x => In pl ks /\ x = R_scale (sc pl) y
+  | _, _ => False
+  end.
+
+Lemma zreg_memb : forall ts k, zreg ts k -> memb k (keys ts) = true.
+Proof. intros ts k [z [G _]]. eapply tget_memb; exact G. Qed.
+
+Lemma run_rel_total : forall g' prog sc tp ts e pl lp ls m e' cz ep,
+  Forall homog_instr prog ->
+  wf_prog R prog (keys ts) = true ->
+  rel sc tp ts -> (forall k, 0 < sc k) ->
+  exp_inv sc ts pl ls e ->
+  last_ok' sc (keys ts) pl lp ls ->
+  T_run true false prog ts e ls = Done m (Some e') ->
+  R_run g' false cz prog tp ep lp = Done (R_scale (p10 e') m) None.
+Proof.
+  intros g' prog. induction prog as [|i prog IH];
+    intros sc tp ts e pl lp ls m e' cz ep Hh Hwf Hrel Hpos He Hlast Hrun.
+  - rewrite T_run_nil in Hrun. rewrite R_run_nil. cbn [wf_prog] in Hwf. apply Nat.eqb_eq in Hwf.
+    destruct ls as [y|]; [|discriminate]. injection Hrun as Ey Ee. subst y e'.
+    destruct lp as [x|]; [|destruct Hlast].
+    destruct Hlast as [Hin Hx].
+    destruct (keys ts) as [|k0 [|k1 ks]] eqn:K; try discriminate.
+    destruct Hin as [Hin|[]]. subst k0. rewrite Hx. f_equal.
+    destruct e as [r|]; cbn [p10 exp_inv] in *.
+    + f_equal. rewrite He, K. cbn [prodk]. ring.
+    + destruct He as [[_ [y [Ey Zy]]] | [k [Hne Zk]]].
+      * injection Ey as Ey. subst y. apply scale_zero_any. exact Zy.
+      * exfalso. apply zreg_memb in Zk. rewrite K in Zk. cbn in Zk.
+        rewrite orb_false_r in Zk. apply Nat.eqb_eq in Zk. congruence.
+  - inversion Hh as [|i' prog' Hi Hprog]; subst i' prog'.
+    destruct i as [p u | p l r b].
+    + (* single-term step *)
+      rewrite T_run_pre in Hrun. rewrite R_run_pre. cbn [wf_prog] in Hwf.
+      apply andb_true_iff in Hwf. destruct Hwf as [Hm Hwf].
+      destruct (tget R p ts) as [y|] eqn:G; [|discriminate].
+      rewrite (rel_tget _ _ _ _ _ Hrel G).
+      cbn [homog_instr] in Hi. rewrite Hi.
+      assert (K : keys (tset R p (u y) ts) = keys ts) by (apply keys_tset_in; exact Hm).
+      eapply IH with (sc := sc) (ts := tset R p (u y) ts) (pl := pl); try eassumption.
+      * rewrite K. exact Hwf.
+      * apply rel_tset; [exact Hrel | reflexivity].
+      * destruct e as [r|]; cbn [exp_inv] in *; [rewrite K; exact He|].
+        assert (Z : forall k, zreg ts k -> zreg (tset R p (u y) ts) k).
+        { intros k [z [Gz Zz]]. destruct (Nat.eq_dec k p) as [E|E].
+          - subst k. rewrite G in Gz. injection Gz as Gz. subst z.
+            exists (u y). split; [apply tget_tset_same | apply homog1_zero; assumption].
+          - exists z. split; [rewrite tget_tset_other by exact E; exact Gz | exact Zz]. }
+        destruct He as [[Zp Hy] | [k [Hne Zk]]]; [left; split; [apply Z; exact Zp | exact Hy]|].
+        right. exists k. split; [exact Hne | apply Z; exact Zk].
+      * rewrite K. exact Hlast.
+    + (* pairwise contraction *)
+      rewrite T_run_pair in Hrun. rewrite R_run_pair. cbn [wf_prog] in Hwf.
+      destruct (tpop R l ts) as [[yl t1]|] eqn:Pl; [|discriminate].
+      destruct (tpop R r t1) as [[yr t2]|] eqn:Pr; [|discriminate].
+      destruct (rel_tpop _ _ _ _ _ _ Hrel Pl) as [tp1 [Pl' [Rel1 K1]]].
+      destruct (rel_tpop _ _ _ _ _ _ Rel1 Pr) as [tp2 [Pr' [Rel2 K2]]].
+      rewrite Pl', Pr'. rewrite K1, K2 in Hwf.
+      apply andb_true_iff in Hwf. destruct Hwf as [Hfresh Hwf].
+      apply negb_true_iff in Hfresh.
+      cbn [andb] in Hrun.
+      set (pa := b yl yr) in *. set (f := R_maxabs pa) in *.
+      assert (Hf0 : 0 <= f) by apply R_maxabs_nonneg.
+      pose proof (rguard_fix_pos f Hf0) as Hg.
+      cbn [homog_instr] in Hi. rewrite Hi.
+      set (v := sc l * sc r * rguard_fix f).
+      assert (Hv : 0 < v).
+      { unfold v. apply Rmult_lt_0_compat; [apply Rmult_lt_0_compat; apply Hpos | exact Hg]. }
+      assert (Hpa : R_scale (sc l * sc r) pa = R_scale (upd sc p v p) (R_divs pa (rguard_fix f))).
+      { unfold upd. rewrite Nat.eqb_refl, R_divs_scale, R_scale_scale. f_equal.
+        unfold v. field. lra. }
+      assert (Kn : keys (tset R p (R_divs pa (rguard_fix f)) t2) = keys t2 ++ [p])
+        by (apply keys_tset_notin; exact Hfresh).
+      (* a register other than l, r that is zero before the step is still there, and is not p *)
+      assert (Zkeep : forall k, k <> l -> k <> r -> zreg ts k ->
+                k <> p /\ zreg (tset R p (R_divs pa (rguard_fix f)) t2) k).
+      { intros k Hl Hr [z [Gz Zz]].
+        assert (G2 : tget R k t2 = Some z).
+        { rewrite (tpop_tget_other _ _ _ _ _ Pr Hr), (tpop_tget_other _ _ _ _ _ Pl Hl). exact Gz. }
+        assert (Hkp : k <> p).
+        { intro E. subst k. apply tget_memb in G2. congruence. }
+        split; [exact Hkp|]. exists z. split; [rewrite tget_tset_other by exact Hkp; exact G2 | exact Zz]. }
+      (* a zero operand makes the product zero *)
+      assert (Zcons : forall k, zreg ts k -> k = l \/ k = r -> zero pa).
+      { intros k [z [Gz Zz]] [E|E].
+        - subst k. rewrite (tpop_tget_same _ _ _ _ Pl) in Gz. injection Gz as Gz. subst z.
+          apply homog2_zero_l; assumption.
+        - destruct (Nat.eq_dec k l) as [El|El].
+          + rewrite El in Gz. rewrite (tpop_tget_same _ _ _ _ Pl) in Gz. injection Gz as Gz. subst z.
+            apply homog2_zero_l; assumption.
+          + subst k. rewrite <- (tpop_tget_other _ _ _ _ _ Pl El) in Gz.
+            rewrite (tpop_tget_same _ _ _ _ Pr) in Gz. injection Gz as Gz. subst z.
+            apply homog2_zero_r; assumption. }
+      eapply IH with (sc := upd sc p v) (ts := tset R p (R_divs pa (rguard_fix f)) t2) (pl := p);
+        try eassumption.
+      * rewrite Kn. exact Hwf.
+      * apply rel_tset; [apply rel_upd; assumption | exact Hpa].
+      * intro k. unfold upd. destruct (Nat.eqb k p); [exact Hv | apply Hpos].
+      * (* exponent invariant *)
+        unfold er_log, ris0. destruct (Req_EM_T f 0) as [Ef|Ef].
+        -- (* the product is exactly zero: exponent -inf, the new register is zero *)
+           assert (Zpa : zero (R_divs pa (rguard_fix f))).
+           { rewrite R_divs_scale. apply zero_scale. apply maxabs_zero. exact Ef. }
+           replace (er_add e ENInf) with ENInf by (destruct e; reflexivity).
+           cbn [exp_inv]. left. split.
+           ++ exists (R_divs pa (rguard_fix f)). split; [apply tget_tset_same | exact Zpa].
+           ++ eexists. split; [reflexivity | exact Zpa].
+        -- destruct e as [rr|]; cbn [er_add exp_inv] in *.
+           ++ rewrite Kn, prodk_app, prodk_upd by assumption. cbn [prodk]. unfold upd at 1.
+              rewrite Nat.eqb_refl.
+              assert (Hfp : 0 < f) by lra.
+              rewrite pow10_plus, pow10_log10, He by exact Hfp.
+              rewrite (prodk_rem1 sc _ _ _ K1), (prodk_rem1 sc _ _ _ K2). unfold v.
+              unfold rguard_fix, ris0. destruct (Req_EM_T f 0); [contradiction | ring].
+           ++ (* already -inf and the product is not zero: the zero register was not consumed *)
+              right.
+              assert (Hk : exists k, zreg ts k).
+              { destruct He as [[Zp _] | [k [_ Zk]]]; eauto. }
+              destruct Hk as [k Zk].
+              destruct (Nat.eq_dec k l) as [El|El];
+                [exfalso; apply Ef; apply zero_maxabs; eapply Zcons; eauto|].
+              destruct (Nat.eq_dec k r) as [Er|Er];
+                [exfalso; apply Ef; apply zero_maxabs; eapply Zcons; eauto|].
+              destruct (Zkeep k El Er Zk) as [Hkp Zk']. exists k. split; assumption.
+      * rewrite Kn. cbn [last_ok']. split; [apply in_or_app; right; left; reflexivity | exact Hpa].
+Qed.
+
+Definition ones_sc : nat -> R := fun _ => 1.
+
+Lemma strip_value_total : forall g' prog arrays m e,
+  Forall homog_instr prog ->
+  wf_prog R prog (seq 0 (length arrays)) = true ->
+  T_core true false prog arrays = Done m (Some e) ->
+  R_core g' false false prog arrays = Done (R_scale (p10 e) m) None.
+Proof.
+  intros g' prog arrays m e Hh Hwf Hrun. unfold T_core, R_core, contract_core in *.
+  fold T_run in Hrun. fold (R_run g').
+  eapply run_rel_total with (sc := fun _ => 1) (pl := 0%nat); try eassumption.
+  - rewrite keys_combine_seq. exact Hwf.
+  - apply rel_refl_ones.
+  - intro. lra.
+  - cbn [exp_inv]. rewrite pow10_0, prodk_ones. reflexivity.
+  - exact I.
+Qed.
+
+(* ------------------------------------------------------------------ *)
+(* fixed semantics: add_maybe_exponent_stripped / gather_slices with -inf exponents *)
+Lemma R_mscale_r_0 : forall m c, R_mscale_r (R_mscale_r m 0) c = R_mscale_r m 0.
+Proof. intros. rewrite R_mscale_r_mul. f_equal. ring. Qed.
+
+Lemma T_add_core : forall xm xe ym ye,
+  T_value (if er_isninf (er_max xe ye) then Strip (R_madd xm ym) (er_max xe ye)
+           else Strip (R_madd (R_mscale_r xm (er_pow xe (er_max xe ye)))
+                              (R_mscale_r ym (er_pow ye (er_max xe ye)))) (er_max xe ye)) =
+  R_madd (R_mscale_r xm (p10 xe)) (R_mscale_r ym (p10 ye)).
+Proof.
+  intros xm xe ym ye. destruct xe as [a|], ye as [b|]; cbn [er_max er_isninf T_value p10 er_pow].
+  - rewrite R_mscale_r_madd, !R_mscale_r_mul, !pow10_diff. reflexivity.
+  - rewrite R_mscale_r_madd, !R_mscale_r_mul, pow10_diff. do 2 f_equal. ring.
+  - rewrite R_mscale_r_madd, !R_mscale_r_mul, pow10_diff. f_equal. f_equal. ring.
+  - apply R_mscale_r_madd.
+Qed.
+
+Lemma T_add_value : forall x y, T_value (T_add x y) = R_madd (T_value x) (T_value y).
+Proof.
+  intros x y. destruct x as [xm|xm xe], y as [ym|ym ye]; unfold T_add, add_maybe.
+  - reflexivity.
+  - fold R_mscale_r R_madd. rewrite T_add_core. cbn [T_value p10]. rewrite pow10_0, R_mscale_r_1. reflexivity.
+  - fold R_mscale_r R_madd. rewrite T_add_core. cbn [T_value p10]. rewrite pow10_0, R_mscale_r_1. reflexivity.
+  - fold R_mscale_r R_madd. apply T_add_core.
+Qed.
+
+Lemma T_fold_add_value : forall rest s,
+  T_value (fold_left T_add rest s) = fold_left R_madd (map T_value rest) (T_value s).
+Proof.
+  induction rest as [|t rest IH]; intro s; cbn [fold_left map]; [reflexivity|].
+  rewrite IH, T_add_value. reflexivity.
+Qed.
+
+Lemma T_gather_sum_value : forall s rest r,
+  T_gather_sum (s :: rest) = Some r ->
+  T_value r = fold_left R_madd (map T_value rest) (T_value s).
+Proof.
+  intros s rest r H. unfold T_gather_sum, gather_sum in H. injection H as E. subst r.
+  apply T_fold_add_value.
+Qed.
+
+Definition tkvalue (ks : nat * sval R er) : nat * mant R := (fst ks, T_value (snd ks)).
+
+Lemma T_chunk_add_value : forall k s chunks,
+  map tkvalue (chunk_add R er Rplus Rmult er_isninf (EFin 0) er_max er_pow k s chunks) =
+  vchunk_add k (T_value s) (map tkvalue chunks).
+Proof.
+  intros k s chunks. induction chunks as [|[k' c] chunks IH]; cbn [chunk_add map vchunk_add].
+  - reflexivity.
+  - unfold tkvalue at 2. cbn [fst snd]. destruct (Nat.eqb k' k).
+    + cbn [map]. unfold tkvalue at 1. cbn [fst snd]. fold T_add. rewrite T_add_value. reflexivity.
+    + cbn [map]. rewrite IH. reflexivity.
+Qed.
+
+Lemma T_group_value : forall keyed, map tkvalue (T_group keyed) = vgroup (map tkvalue keyed).
+Proof.
+  intro keyed. unfold T_group, group_chunks, vgroup.
+  assert (G : forall acc,
+    map tkvalue (fold_left (fun chunks ks =>
+       chunk_add R er Rplus Rmult er_isninf (EFin 0) er_max er_pow (fst ks) (snd ks) chunks) keyed acc) =
+    fold_left (fun chunks kv => vchunk_add (fst kv) (snd kv) chunks) (map tkvalue keyed) (map tkvalue acc)).
+  { induction keyed as [|ks keyed IH]; intro acc; cbn [fold_left map]; [reflexivity|].
+    rewrite IH, T_chunk_add_value. reflexivity. }
+  apply (G []).
+Qed.
+
+Lemma er_max_ninf : forall a b, er_max a b = ENInf -> a = ENInf /\ b = ENInf.
+Proof. intros [a|] [b|]; cbn [er_max]; intro H; try discriminate; split; reflexivity. Qed.
+
+Lemma fold_er_max_ninf : forall l x, fold_left er_max l x = ENInf ->
+  x = ENInf /\ forall e, In e l -> e = ENInf.
+Proof.
+  induction l as [|y l IH]; intros x H; cbn [fold_left] in H.
+  - split; [exact H | intros e []].
+  - destruct (IH _ H) as [Hxy Hl]. destruct (er_max_ninf _ _ Hxy) as [Hx Hy].
+    split; [exact Hx|]. intros e [E|E]; [rewrite <- E; exact Hy | apply Hl; exact E].
+Qed.
+
+Lemma T_exps_of_strip : forall (chunks : list (nat * sval R er)) es,
+  exps_of R er chunks = Some es ->
+  forall kc, In kc chunks -> exists m e, snd kc = Strip m e /\ In e es.
+Proof.
+  induction chunks as [|[k c] chunks IH]; intros es H kc Hin; [destruct Hin|].
+  cbn [exps_of fold_right] in H. fold (exps_of R er chunks) in H. cbn [snd] in H.
+  destruct c as [m|m e]; [discriminate|].
+  destruct (exps_of R er chunks) as [l|] eqn:X; [|discriminate].
+  injection H as E. subst es. destruct Hin as [Hin|Hin].
+  - subst kc. exists m, e. split; [reflexivity | left; reflexivity].
+  - destruct (IH l eq_refl kc Hin) as [m' [e' [E1 E2]]]. exists m', e'. split; [exact E1 | right; exact E2].
+Qed.
+
+(* the rescaling before stacking, all cases: finite emax, and emax = -inf (every chunk zero) *)
+Lemma T_gather_stack_value : forall b chunks res em,
+  T_gather_stack b chunks = Some (res, Some em) ->
+  map (fun km => (fst km, R_mscale_r (snd km) (p10 em))) res = map tkvalue chunks.
+Proof.
+  intros b chunks res em H. unfold T_gather_stack, gather_stack in H.
+  destruct chunks as [|[k0 c0] chunks0] eqn:EC; [discriminate|].
+  destruct c0 as [m0|m0 e0].
+  - destruct (forallb _ _); discriminate.
+  - rewrite <- EC in *.
+    destruct (exps_of R er chunks) as [es|] eqn:X; [|discriminate].
+    destruct (pymax_list er er_max es) as [em'|] eqn:P; [|discriminate].
+    match type of H with (if ?c then _ else _) = _ => destruct c end; [discriminate|].
+    injection H as Eres Eem. subst res em'.
+    pose proof (T_exps_of_strip _ _ X) as Hs. clear X EC.
+    rewrite map_map. apply map_ext_in. intros [k c] Hin. cbn [fst snd].
+    destruct (Hs _ Hin) as [m [e [E Hes]]]. cbn [snd] in E. subst c.
+    unfold tkvalue. cbn [fst snd T_value]. f_equal.
+    destruct em as [M|]; cbn [er_isninf p10].
+    + destruct e as [a|]; cbn [er_pow p10].
+      * rewrite R_mscale_r_mul, pow10_diff. reflexivity.
+      * apply R_mscale_r_0.
+    + (* emax = -inf: every chunk exponent is -inf *)
+      unfold pymax_list in P. destruct es as [|x r]; [discriminate|]. injection P as P.
+      destruct (fold_er_max_ninf _ _ P) as [Hx Hr].
+      assert (e = ENInf) by (destruct Hes as [E|E]; [rewrite <- E; exact Hx | apply Hr; exact E]).
+      subst e. reflexivity.
+Qed.
+
+(* ------------------------------------------------------------------ *)
+(* end to end, fixed semantics, all slices (zero ones included)         *)
+Lemma T_value_strip_arr : forall m e, T_value (Strip (MArr m) e) = MArr (R_scale (p10 e) m).
+Proof. intros. cbn [T_value]. unfold R_mscale_r, mscale_r. rewrite scale_r_scale. reflexivity. Qed.
+
+Definition strip_of (me : list R * er) : sval R er := Strip (MArr (fst me)) (snd me).
+Definition plain_of (me : list R * er) : list R := R_scale (p10 (snd me)) (fst me).
+
+Lemma slices_plain_total : forall g' prog slices ms,
+  Forall homog_instr prog ->
+  Forall2 (fun arrs me => wf_prog R prog (seq 0 (length arrs)) = true /\
+                          T_core true false prog arrs = Done (fst me) (Some (snd me))) slices ms ->
+  Forall2 (fun arrs p => R_core g' false false prog arrs = Done p None) slices (map plain_of ms).
+Proof.
+  intros g' prog slices ms Hh HF.
+  induction HF as [|arrs me slices ms [Hwf Hrun] HF IH]; cbn [map]; constructor; [|exact IH].
+  apply strip_value_total; assumption.
+Qed.
+
+Lemma sliced_sum_value_total : forall g' prog slices ms r,
+  Forall homog_instr prog ->
+  Forall2 (fun arrs me => wf_prog R prog (seq 0 (length arrs)) = true /\
+                          T_core true false prog arrs = Done (fst me) (Some (snd me))) slices ms ->
+  T_gather_sum (map strip_of ms) = Some r ->
+  exists ps, Forall2 (fun arrs p => R_core g' false false prog arrs = Done p None) slices ps /\
+             match ps with
+             | [] => False
+             | p :: rest => T_value r = fold_left R_madd (map (fun x => MArr x) rest) (MArr p)
+             end.
+Proof.
+  intros g' prog slices ms r Hh HF Hr.
+  exists (map plain_of ms). split; [apply slices_plain_total; assumption|].
+  destruct ms as [|me ms]; [discriminate|]. cbn [map] in *.
+  rewrite (T_gather_sum_value _ _ _ Hr). unfold strip_of at 2. rewrite T_value_strip_arr. f_equal.
+  rewrite !map_map. apply map_ext. intros [m e]. unfold strip_of. cbn [fst snd]. apply T_value_strip_arr.
+Qed.
+
+Lemma tkvalue_combine : forall (kl : list nat) ms,
+  map tkvalue (combine kl (map strip_of ms)) = combine kl (map (fun x => MArr x) (map plain_of ms)).
+Proof.
+  induction kl as [|k kl IH]; intros [|me ms]; cbn [combine map]; try reflexivity.
+  rewrite IH. f_equal. unfold tkvalue, strip_of. cbn [fst snd]. rewrite T_value_strip_arr. reflexivity.
+Qed.
+
+Lemma sliced_stack_value_total : forall g' b prog slices ms (keys : list nat) res em,
+  Forall homog_instr prog ->
+  Forall2 (fun arrs me => wf_prog R prog (seq 0 (length arrs)) = true /\
+                          T_core true false prog arrs = Done (fst me) (Some (snd me))) slices ms ->
+  T_gather_stack b (T_group (combine keys (map strip_of ms))) = Some (res, Some em) ->
+  exists ps, Forall2 (fun arrs p => R_core g' false false prog arrs = Done p None) slices ps /\
+             map (fun km => (fst km, R_mscale_r (snd km) (p10 em))) res =
+             vgroup (combine keys (map (fun x => MArr x) ps)).
+Proof.
+  intros g' b prog slices ms keys res em Hh HF H.
+  exists (map plain_of ms). split; [apply slices_plain_total; assumption|].
+  rewrite (T_gather_stack_value _ _ _ _ H), T_group_value, tkvalue_combine. reflexivity.
+Qed.
+
+(* "whenever that result is non-zero": a denoted value with a non-zero entry has a finite exponent *)
+Lemma nonzero_value_finite_exponent : forall m e v,
+  In v (R_scale (p10 e) m) -> v <> 0 -> exists x, e = EFin x.
+Proof.
+  intros m e v Hin Hv. destruct e as [x|]; [exists x; reflexivity|].
+  exfalso. apply Hv. cbn [p10] in Hin. pose proof (scale0_zero m) as Z.
+  unfold zero in Z. rewrite Forall_forall in Z. apply Z. exact Hin.
+Qed.
